@@ -278,3 +278,28 @@ def contracts_on_constructors(tier='quick', seed=0, modules=('contracts.typing_c
                         'bound': f'{len(nodes)} corpus nodes: self-reconstruction + 2 cross-kind child replacements per child slot',
                         'cases': cases, 'distinct': cases, 'exhaustive': False},
             'samples': samples}
+
+
+def predicate_constructor_contract(tier='quick', seed=0):
+    """the ASSUMED contract of HplPredicateExpression.__init__ (C13) evaluated natively on every expression node of
+    the corpus (boolean or not): accepted => stores the condition narrowed to BOOL; raises only TypeError"""
+    import copy
+    from pyvc.native import native_check
+    from bounded import corpus
+    importlib.import_module('contracts.rewrite_c13')
+    nodes = corpus.all_nodes(corpus.expressions(seed, 1200 if tier == 'thorough' else 300, 3))
+    cases = 0
+    violations, samples = [], []
+    for n in nodes:
+        cases += 1
+        r = native_check('hpl.ast.predicates.HplPredicateExpression.__init__', {'expression': copy.deepcopy(n)})
+        if r.get('valid_input') and (r.get('violated') or r.get('clause_error')):
+            if len(violations) < 5:
+                violations.append({'witness': f'predctor:{n}', 'what': f'HplPredicateExpression({n}): {r.get("outcome")} violates '
+                                   f'{r.get("violated") or r.get("clause_error")}'[:400]})
+        elif len(samples) < 2:
+            samples.append({'call': f'HplPredicateExpression({n})', 'outcome': str(r.get('outcome'))[:80]})
+    return {'obligations_n': 0, 'discharged_n': 0, 'violations': violations, 'faults': [],
+            'bounded': {'what': 'assumed contract of HplPredicateExpression.__init__ evaluated natively',
+                        'bound': f'{len(nodes)} distinct expression nodes', 'cases': cases, 'distinct': cases, 'exhaustive': False},
+            'samples': samples}
